@@ -9,7 +9,7 @@ from props import derlib
 META = {
     "technique": "TLA+ value algebra of encoding/asn1 (ASN1Marshal.tla over DER.tla): Enc(type, value) with all field parameters; TLC enumerates struct schemas with values, checks that Enc is injective on every schema of the documented domain and emits each case with the bytes Marshal must produce; Go types are built with reflect.StructOf and marshalled, strictly unmarshalled and re-marshalled; seeded random deeper types are judged by TLC",
     "text": "Enc transcribes the documented encoding of Go values (INTEGER from int64 / *big.Int / Enumerated, BOOLEAN, Flag, strings with the printable/UTF8 selection and ia5/printable/numeric/utf8 overrides, OID, BIT STRING, UTCTime/GeneralizedTime by the year rule and overrides, OCTET STRING, RawValue, nested structs, SEQUENCE OF, SET OF with DER sorting) under optional / default:n / explicit / tag:n / application / private / set / omitempty. Every generated (schema, value) is a TLC state; the harness compares Marshal's bytes with Enc, requires strict Unmarshal to consume everything and return the value (SET OF up to order) and the second Marshal to reproduce the bytes. The documented domain (optional fields distinguishable from what follows) is a predicate of the generator. Bounded-exhaustive over the parameter menu plus TLC-judged random nesting.",
-    "note": "Trusted: TLC, Go toolchain, reflect.StructOf, math/big and time for concretisation. Outside the documented domain and not generated: tagged RawValue fields (Marshal ignores their parameters), implicitly tagged GeneralizedTime / non-printable strings without a string-type parameter, non-optional Flag, omitempty without optional, optional *big.Int, RawContent, BMPString / T61String / GeneralString (decode only). Time values carry whole seconds only.",
+    "note": "Trusted: TLC, Go toolchain, reflect.StructOf, math/big and time for concretisation. Outside the documented domain and not generated: tagged RawValue fields (Marshal ignores their parameters), implicitly tagged GeneralizedTime / non-printable strings without a string-type parameter, non-optional Flag, omitempty without optional, optional *big.Int, RawContent, BMPString / T61String / GeneralString (decode only). Time values carry whole seconds only; for a zone offset with a sub-minute part (not representable as +-hhmm) the round trip is judged on the representable instant (local fields in the zone truncated to minutes, ASN1Marshal.tla ZoneMin), see design_notes/C18.md.",
 }
 
 QUICK = dict(MENUS='{"small","large","times"}', S_FIELDS=2, L_FIELDS=1, T_FIELDS=1)
